@@ -47,7 +47,7 @@ def rnd_radius(rnd, lo, hi=800.0, p_plane=0.15):
 def random_lens(rnd, nsurf=None, kinds=("standard",), mirrors=False, tilts=False, catalogue=False,
                 finite_object=None, aperture="EPD", field_type=None, apertures=False, coatings=False,
                 absorbing=False, max_field=None, wavelengths=None, conics=True, stop=None,
-                poly_pow2=True):
+                poly_pow2=True, curved_image=False):
     """Returns (optic, meta).  Everything goes through the public API."""
     from optiland.optic import Optic
     from optiland.materials import IdealMaterial
@@ -121,7 +121,12 @@ def random_lens(rnd, nsurf=None, kinds=("standard",), mirrors=False, tilts=False
             kw["coating"] = SimpleCoating(transmittance=T, reflectance=rnd.uniform(0, 1 - T))
         quiet(o.add_surface, **kw)
         meta["kinds"].append(kind)
-    o.add_surface(index=n + 1)
+    if curved_image:
+        # a curved image surface (radius large against the beam)
+        o.add_surface(index=n + 1, radius=rnd.choice([-1, 1]) * rnd.uniform(6.0, 40.0) * epd)
+        meta["curved_image"] = True
+    else:
+        o.add_surface(index=n + 1)
     o.set_aperture(aperture, {"EPD": epd, "imageFNO": rnd.uniform(2.0, 10.0),
                               "objectNA": rnd.uniform(0.01, 0.1)}[aperture])
     if field_type is None:
